@@ -46,11 +46,15 @@ class ASt:
         self.aux = aux or {}
 
     def __getstate__(self):
-        return (self.m, [f.node for f in self.fns], list(self.masks), dict(self.aux))
+        # anything else the wrapper object carries (a cache somebody adds to it) travels too
+        extra = {k: v for k, v in self.bdd.__dict__.items() if k not in ('_bdd', 'vars')}
+        return (self.m, [f.node for f in self.fns], list(self.masks), dict(self.aux), extra)
 
     def __setstate__(self, s):
-        self.m, nodes, self.masks, self.aux = s
+        self.m, nodes, self.masks, self.aux = s[:4]
         self.bdd = _wrap(self.m)
+        if len(s) > 4:
+            self.bdd.__dict__.update(s[4])
         self.fns = [_adopt(self.bdd, n) for n in nodes]
 
 
@@ -66,9 +70,11 @@ class AutorefMachine(Machine):
     name = 'autoref'
 
     def __init__(self, names, max_live=3, reordering=(False,), ops=('and', 'or'),
-                 rich=True, forced=(), traversal=True, seeds=('fresh', 'used'), files=False):
+                 rich=True, forced=(), traversal=True, seeds=('fresh', 'used'), files=False,
+                 compare=False):
         self.names = tuple(names)
         self.files = files
+        self.compare = compare
         self.U = Universe(self.names)
         self.max_live = max_live
         self.reordering = tuple(reordering)
@@ -397,9 +403,23 @@ class AutorefMachine(Machine):
                 raise Violation('len() of a live Function is not its number of reachable nodes')
             if f.var is not None and st.m.level_of_var(f.var) != f.level:
                 raise Violation('var/level of a live Function disagree with the manager')
+            O.observe_queries(st.m, U, f.node, mask)
             # the public accessor of the count reports the count (also for complemented nodes)
             if f.ref != st.m._ref[abs(f.node)]:
                 raise Violation('Function.ref does not report the reference count of its node')
+        # comparisons between live Functions, evaluated in every state of the machines that ask
+        # for it (`<=` computes `other | ~self`: it leaves nodes and cache entries behind)
+        F_ = U.full
+        for i, (f, mf) in enumerate(zip(st.fns, st.masks) if self.compare else ()):
+            for g, mg in list(zip(st.fns, st.masks))[i:]:
+                le = (mf & (F_ ^ mg)) == 0
+                ge = (mg & (F_ ^ mf)) == 0
+                if bool(f <= g) != le or bool(g <= f) != ge:
+                    raise Violation('<= between live Functions is wrong (in a history)')
+                if bool(f < g) != (le and mf != mg) or bool(g < f) != (ge and mf != mg):
+                    raise Violation('< between live Functions is wrong (in a history)')
+                if bool(f == g) != (mf == mg) or bool(f != g) != (mf != mg):
+                    raise Violation('== / != between live Functions is wrong (in a history)')
         if not shutdown:
             return
         # drop everything, in several orders, on copies: shutdown check must pass
@@ -428,7 +448,9 @@ class AutorefMachine(Machine):
 
     def key(self, st):
         pairs = sorted(zip([f.node for f in st.fns], st.masks))
-        return S.key(st.m, pairs)
+        extra = sorted((k, repr(v)) for k, v in st.bdd.__dict__.items()
+                       if k not in ('_bdd', 'vars'))
+        return S.key(st.m, (pairs, extra))
 
     def unexpected(self, exc, action):
         return 'exception:%s@%s' % (type(exc).__name__, action[0])
@@ -447,6 +469,8 @@ def machines(tier):
                              seeds=('used',)), 3),
             ('files2', dict(names=('x', 'y'), max_live=2, ops=('and',), rich=True, files=True,
                             traversal=False, seeds=('used',)), 3),
+            ('compare3', dict(names=('x', 'y', 'z'), max_live=2, ops=('and', 'or'), rich=False,
+                              traversal=False, compare=True, seeds=('used', 'fresh')), 6),
         ]
     else:
         pl = [
@@ -463,6 +487,8 @@ def machines(tier):
                              seeds=('used', 'fresh')), 3),
             ('files3', dict(names=('x', 'y', 'z'), max_live=2, ops=('xor',), rich=True, files=True,
                             traversal=False, reordering=(False, 2.5)), 3),
+            ('compare3', dict(names=('x', 'y', 'z'), max_live=3, ops=('and', 'or'), rich=False,
+                              traversal=False, compare=True, seeds=('used', 'fresh')), 6),
         ]
     out = []
     for label, kw, depth in pl:
